@@ -763,6 +763,24 @@ class CFGBuilder:
         for fr in reversed(self.frames):
             if fr.kind == "try" and fr.part == "handler" and fr.handler is not None and fr.handler.name == dn:
                 return "reraise"
+        # `raise self._missing(key)`: an exception FACTORY of the package - the class it is annotated to return, or the one class
+        # every `return` of it constructs
+        if isinstance(st.exc, ast.Call) and dn.split(".")[-1].lstrip("_")[:1].islower():
+            try:
+                cal = self.prog.resolve_call(st.exc, self.fn)
+            except Exception:
+                cal = None
+            if cal is not None and cal.kind == "func" and len(cal.funcs) == 1 and not isinstance(cal.funcs[0].node, ast.Lambda):
+                t = cal.funcs[0]
+                ann = dotted(getattr(t.node, "returns", None)) if getattr(t.node, "returns", None) is not None else None
+                if ann and (ann.endswith("Error") or ann.endswith("Exception")):
+                    return ann
+                rets = [x.value for x in ast.walk(t.node) if isinstance(x, ast.Return) and x.value is not None]
+                names = {dotted(r.func) for r in rets if isinstance(r, ast.Call)}
+                if rets and len(names) == 1 and None not in names and all(isinstance(r, ast.Call) for r in rets):
+                    nm = next(iter(names))
+                    if nm and (nm.endswith("Error") or nm.endswith("Exception")):
+                        return nm
         return dn
 
     def _innermost_loop(self) -> int:
